@@ -42,6 +42,47 @@ def ops():
 
 
 OPS = ops()
+BASE = (list(K), list(V), list(INITS))
+# other spellings of the same two keys and three values: keys of which one is part of the other and values that are equal to
+# keys; the blank key next to another one, a value equal to it
+ALPHABETS = [({}, "a/b with 1/2/''"), ({"b": "ab", "1": "a", "2": "ab"}, "a/ab with a/ab/''"), ({"a": "", "1": "b"}, "''/b with b/2/''"), ({"a": "id", "b": "uid", "1": "uid", "2": "id", "": "d"}, "id/uid with uid/id/d")]
+
+
+def use_alphabet(i):
+    """Re-spell keys, values, initial lists and operations (keys and values are renamed by separate tables that happen to share
+    the spelling of their left-hand sides: a key 'a'/'b', a value '1'/'2'/'')."""
+    global K, V, INITS, OPS, PROBE_KEYS
+    table = ALPHABETS[i][0]
+    kt = lambda k: table.get(k, k) if k in ("a", "b") else k
+    vt = lambda v: table.get(v, v) if v in ("1", "2", "") else v
+    K, V = [kt(k) for k in BASE[0]], [vt(v) for v in BASE[1]]
+    INITS = [tuple((kt(k), vt(v)) for k, v in init) for init in BASE[2]]
+    out = []
+    K0, V0 = BASE[0], BASE[1]
+    for op in _ops_for(K0, V0):
+        o = op[0]
+        if o in ("set", "append", "setdefault"):
+            out.append((o, kt(op[1]), None if op[2] is None else vt(op[2])))
+        elif o == "setlist":
+            out.append((o, kt(op[1]), tuple(vt(v) for v in op[2])))
+        elif o in ("del", "pop", "popd", "poplist"):
+            out.append((o, kt(op[1])))
+        elif o in ("update_pairs", "update_map", "update_kw"):
+            out.append((o, tuple((kt(k), vt(v)) for k, v in op[1])))
+        else:
+            out.append(op)
+    OPS = out
+    PROBE_KEYS = K + ["zz"]
+
+
+def _ops_for(K0, V0):
+    global K, V
+    keep = (K, V)
+    K, V = K0, V0
+    try:
+        return ops()
+    finally:
+        K, V = keep
 
 
 def apply_impl(m, op):
@@ -359,6 +400,7 @@ def noarg_family(r):
 
 def shards(tier, seed):
     out = [("bfs", i) for i in range(len(INITS))]
+    out += [("bfs", i, a) for i in range(len(INITS)) for a in range(1, len(ALPHABETS))]
     out.append(("noarg",))
     out += [("query", i) for i in range(len(QA))]
     out += [("python-O", ("bfs", 3)), ("python-O", ("bfs", 5)), ("python-O", ("noarg",))]
@@ -378,8 +420,10 @@ def run_shard(desc, tier):
         noarg_family(r)
         return r
     if desc[0] == "bfs":
+        alpha = desc[2] if len(desc) > 2 else 0
+        use_alphabet(alpha)
         init = INITS[desc[1]]
-        depth = DEPTH[tier]
+        depth = DEPTH[tier] if alpha == 0 else min(DEPTH[tier], 5)
         reach = {}
 
         def successors(hist):
@@ -389,7 +433,7 @@ def run_shard(desc, tier):
                 r.count("evaluations")
                 if prob is not None:
                     i, kind, a, b = prob
-                    r.violation(f"{op[0]}:{kind}", {"init": list(init), "history": [list(o) for o in h2]},
+                    r.violation(f"{op[0]}:{kind}", {"init": list(init), "history": [list(o) for o in h2], "alphabet": alpha},
                                 f"init {list(init)} history {h2}: at step {i} ({h2[i]}) {kind}: implementation {a!r:.300} vs list-of-pairs {b!r:.300}")
                     yield op, None
                     continue
@@ -411,8 +455,9 @@ def run_shard(desc, tier):
         for l, h in reach.items():
             if any(len(_vals(l, k)) >= 2 for k in K):
                 r.count("distinct_nontrivial")
-            immutable_views(r, list(l), {"init": list(init), "history": [list(o) for o in h]})
+            immutable_views(r, list(l), {"init": list(init), "history": [list(o) for o in h], "alphabet": alpha})
         r.add("depth", deepest)
+        use_alphabet(0)
         r.sample({"init": list(init), "history": [list(o) for o in max(reach.values(), key=len)], "pairs": list(max(reach, key=len))})
     else:
         from baize.datastructures import QueryParams
@@ -426,6 +471,11 @@ def run_shard(desc, tier):
                 lists.append([(f"k{i % 7}", str(i)) for i in range(n)])
         if desc[1] == 0:
             lists.append([])
+            # one long field (a text area, a pasted document) among short ones, around every power of two up to 2^18 characters
+            for n in sorted({2 ** k + d for k in range(12, 19) for d in (-1, 0, 1)} | {200000}):
+                lists.append([("t", "y" * n)])
+                lists.append([("a", "1"), ("t", "y" * n), ("b", "2"), ("t", "z")])
+                lists.append([("k" * n, "v"), ("b", "2")])
         for l in lists:
             r.count("evaluations")
             r.count("distinct_nontrivial")
@@ -436,10 +486,10 @@ def run_shard(desc, tier):
                 q2 = QueryParams(s)
                 q3 = QueryParams(s.encode("latin-1")) if s.isascii() else q2
             except Exception as e:  # noqa
-                r.violation(f"query-exception:{type(e).__name__}", w, f"QueryParams({l}) round trip raised {e!r}")
+                r.violation(f"query-exception:{type(e).__name__}", w, f"QueryParams({l!r:.200}) round trip raised {e!r:.200}")
                 continue
             if not (q2 == q) or q2.multi_items() != l or q3.multi_items() != l:
-                r.violation("query-roundtrip", w, f"QueryParams({l}) -> {s!r} -> {q2.multi_items()}")
+                r.violation("query-roundtrip", w, f"QueryParams({l!r:.200}) -> {s!r:.200} -> {q2.multi_items()!r:.200}")
                 continue
             # the same pairs as a url-encoded form body read through the two request classes: the same views
             if s.isascii():
@@ -447,12 +497,12 @@ def run_shard(desc, tier):
                     try:
                         fm = form_via_request(iface, s.encode("ascii"))
                     except Exception as e:  # noqa
-                        r.violation(f"form-exception:{iface}:{type(e).__name__}", w, f"{iface} Request.form on body {s!r} raised {e!r:.100}")
+                        r.violation(f"form-exception:{iface}:{type(e).__name__}", w, f"{iface} Request.form on a {len(s)}-character body {s!r:.100} raised {e!r:.100}")
                         continue
                     if views(fm) != views(q):
                         va, vb = views(fm), views(q)
                         diff = sorted(k for k in va if va[k] != vb[k])
-                        r.violation(f"form-views:{iface}", w, f"{iface} Request.form on body {s!r}: views {diff} differ from the query mapping of the same pairs: {[va[k] for k in diff]!r:.200} vs {[vb[k] for k in diff]!r:.200}")
+                        r.violation(f"form-views:{iface}", w, f"{iface} Request.form on a {len(s)}-character body {s!r:.100}: views {diff} differ from the query mapping of the same pairs: {[va[k] for k in diff]!r:.200} vs {[vb[k] for k in diff]!r:.200}")
         r.sample({"query_pairs": lists[-1], "string": str(QueryParams(lists[-1]))})
     return r
 
@@ -472,6 +522,7 @@ def replay(w):
         noarg_family(r)
         return bool(r.viol), {"violations": sorted(r.viol)}
     if "history" in w:
+        use_alphabet(w.get("alphabet", 0))
         init = tuple(tuple(p) for p in w["init"])
         hist = tuple(tuple(tuple(x) if isinstance(x, list) else x for x in o) for o in w["history"])
         hist = tuple(tuple(tuple(tuple(y) if isinstance(y, list) else y for y in x) if isinstance(x, tuple) else x for x in o) for o in hist)
